@@ -457,7 +457,28 @@ def m_res_map_or_else(eng, ctx, f, path, args, dty):
     return _by_variant(eng, ctx, e, {0: lambda c: TailCall(args[2], [_payload(e, 0)]), 1: lambda c: TailCall(args[1], [_payload(e, 1)])})
 
 
+def m_range_next(eng, ctx, f, path, args, dty):
+    """<Range<usize> as Iterator>::next: yields start and advances while start < end"""
+    r = eng.load_ptr(ctx, args[0])
+    if not (isinstance(r, Agg) and 0 in r.f and 1 in r.f):
+        raise Unsupported(f"Range::next on {r}")
+    lo, hi = r.f[0], r.f[1]
+    more = (lo < hi) if (z3.is_expr(lo) and z3.is_int(lo)) or (z3.is_expr(hi) and z3.is_int(hi)) else z3.ULT(lo, hi)
+
+    def some(c):
+        eng.store_ptr(c, args[0], Agg({0: z3.simplify(lo + 1), 1: hi}))
+        return Enum(1, {1: Agg({0: lo})}, "Option")
+    ms = z3.simplify(more)
+    if z3.is_true(ms):
+        return some(ctx)
+    if z3.is_false(ms):
+        return Enum(0, {}, "Option")
+    return Fork([(more, some), (z3.Not(more), Enum(0, {}, "Option"))])
+
+
 COMBINATORS = {
+    r"^<Range as Iterator>::next$|^<std::ops::Range as Iterator>::next$": m_range_next,
+    r"^<Range as IntoIterator>::into_iter$|^<std::ops::Range as IntoIterator>::into_iter$": m_identity,
     r"(^|::)Option::as_ref$|(^|::)Option::as_mut$": m_opt_as_ref,
     r"(^|::)Option::map$": m_opt_map,
     r"(^|::)Option::and_then$": m_opt_and_then,
